@@ -156,3 +156,45 @@ Proof.
   split; [vm_compute; reflexivity|]. split; [vm_compute; reflexivity|].
   vm_compute. repeat split; try reflexivity. intros H. apply H. reflexivity.
 Qed.
+
+(* class 3, StalePendingBorrowingFees (dilution clause of a deposit): u128/20 market with short
+   open interest whose borrowing clock is 50000 s behind; a deposit enlarges the pool, lowers
+   the utilisation and with it the pending-fee estimate inside pool_value: the value per market
+   token falls although the deposit itself is priced fairly.  State and request are the ones
+   the c06 driver produced on vmarket::TestMarket (seed 31). *)
+Definition cfg128_w3 : config :=
+  mkConfig (mkIP 200000000000000000000 0 0) (mkFP 0 0 0 0)
+    (mkPP 100000000000000000000 100000000000000000000 1000000000000000000 None 500000000000000000 500000000000000000 250000000000000000)
+    (mkIP 200000000000000000000 100000000000 200000000000) (mkFP 50000000000000000 70000000000000000 37000000000000000000 0)
+    (mkDP 100000000000000000000 1000000000)
+    (mkBP 37000000000000000000 100000000000000000000 100000000000000000000 2800000000000 2800000000000 true)
+    (mkKP 75000000000000000000 1902587519025 4756468797564)
+    (mkFuP 100000000000000000000 2000000000000 1000000000000 0 1000000000000 100000000000 5000000000000000000 0)
+    100000000000000000000 100000000000000000000
+    (mkPnlF 60000000000000000000 30000000000000000000 50000000000000000000 50000000000000000000) 0
+    100000000000000000000000000000 10000000000000000000000 340282366920938463463374607431768211455 6024096385 false
+    (mkLQ 200000000000000000 37000000000000000000).
+Definition state_w3 : mstate :=
+  mkState 1000001575 100000000000 10000000000 (mkPool 0 500000788) pool0 pool0 pool0
+    (mkPool 90000141840000000000 0) pool0 (mkPool 7500 0) pool0 pool0 0 pool0 pool0 pool0 pool0 pool0 pool0 pool0
+    1000000 None (Some 950000) None None None.
+Definition prices_w3 : prices :=
+  mkPrices (mkPrice 6000000000000003 6000000000000003) (mkPrice 6000000000000003 6000000000000003)
+           (mkPrice 200000000000 200000000000).
+
+Lemma stale_pending_borrowing_refuted :
+  exists s1 rd td P1,
+    deposit_exec_trace 128 (10 ^ 20) cfg128_w3 state_w3 1 2500787 prices_w3 = Ok (s1, rd, td) /\
+    pool_value 128 (10 ^ 20) cfg128_w3 s1 prices_w3 MaxAfterDeposit true = Ok P1 /\
+    0 < total_supply state_w3 /\ passed state_w3 (clk_borrowing state_w3) = 50000 /\
+    dt_pool_value td = 55097104954108197016 /\ P1 = 55601571219347818588 /\
+    credit_value prices_w3 td = 506157400000000003 /\
+    (* the pool value grows by less than the credited value ... *)
+    P1 - dt_pool_value td < credit_value prices_w3 td /\
+    (* ... and the value per token falls *)
+    ~ dt_pool_value td * total_supply s1 <= P1 * total_supply state_w3.
+Proof.
+  eexists. eexists. eexists. eexists.
+  split; [vm_compute; reflexivity|]. split; [vm_compute; reflexivity|].
+  vm_compute. repeat split; try reflexivity. intros H. apply H. reflexivity.
+Qed.
